@@ -74,6 +74,7 @@ def generate(rng, tier, index):
         ops.append(driver.gen_op(rng, recipe, core.weighted_choice(rng, items), allow, p_each))
     if ops[-1]["op"] != "predict":
         ops.append(driver.gen_op(rng, recipe, "predict", allow, p_each))
+    core.sticky_bundles(rng, ops)
     return {"recipe": recipe, "ops": ops, "header": {"faulty": faulty}}
 
 
